@@ -469,7 +469,7 @@ func genC13(c *hlib.Ctx) {
 		_ = id.SetEntropy(e[:])
 		blocks = append(blocks, id.String())
 	}
-	rounds := c.N(1500, 60000)
+	rounds := c.N(8000, 60000)
 	for round := 0; round < rounds; round++ {
 		// ---- postings: two ways of cutting one string at a ':' (the collision shape), and random pairs
 		{
